@@ -286,6 +286,10 @@ func genHelloBytes(r *Rng) []byte {
 }
 
 func genCHRT(r *Rng, i int, tier string) string {
+	return genCHRT0(r, i, tier) + " edit=" + chEditKinds[(i+i/4)%len(chEditKinds)]
+}
+
+func genCHRT0(r *Rng, i int, tier string) string {
 	if i < len(parrotIDs) {
 		return fmt.Sprintf("id=%s rseed=%d", idName(parrotIDs[i]), r.U64()%1000000)
 	}
@@ -364,7 +368,47 @@ func execCHRT(in KV) string {
 	if pub2 != nil {
 		f2 = vtab.RenderAll(pub2, chLeaves(), id)
 	}
-	return fmt.Sprintf("out=ok raw=%s same=%d f1=%s re=%s f2=%s", hx(raw), same, f1, hx(re), f2)
+	// edit-after-unmarshal on the SAME view: change one public field, marshal, parse again.
+	// What Marshal writes must be the view's current public fields, whatever was converted before.
+	kind := in["edit"]
+	if kind == "" {
+		kind = "sni"
+	}
+	applyCHEdit(pub, kind)
+	f3, re3 := "reject", ""
+	if b3, err := pub.Marshal(); err != nil {
+		re3, f3 = "err:"+sanitize(err.Error()), "-"
+	} else {
+		re3 = hx(b3)
+		if pub3 := tls.UnmarshalClientHello(b3); pub3 != nil {
+			f3 = vtab.RenderAll(pub3, chLeaves(), id)
+		}
+	}
+	return fmt.Sprintf("out=ok raw=%s same=%d f1=%s re=%s f2=%s edit=%s re3=%s f3=%s", hx(raw), same, f1, hx(re), f2, kind, re3, f3)
+}
+
+// chEditKinds: the public fields edited after the first conversion (fixed new values; Lean: Drv.C31.applyEdit).
+var chEditKinds = []string{"sni", "suites", "sid", "alpn", "ks", "vers", "versions", "cookie"}
+
+func applyCHEdit(pub *tls.PubClientHelloMsg, kind string) {
+	switch kind {
+	case "sni":
+		pub.ServerName = "edited.example.org"
+	case "suites":
+		pub.CipherSuites = []uint16{0x1302, 0x1303}
+	case "sid":
+		pub.SessionId = []byte{0x5a, 0x5a, 0x5a, 0x5a, 0x5a, 0x5a, 0x5a}
+	case "alpn":
+		pub.AlpnProtocols = []string{"h3", "x"}
+	case "ks":
+		pub.KeyShares = []tls.KeyShare{{Group: 23, Data: []byte{1, 2, 3, 4}}}
+	case "vers":
+		pub.Vers = 0x0302
+	case "versions":
+		pub.SupportedVersions = []uint16{0x0304}
+	case "cookie":
+		pub.Cookie = []byte{9, 9, 9}
+	}
 }
 
 var _ = strings.Join
